@@ -76,6 +76,7 @@ pub struct Shape {
     pub name_case_differs: bool,
     pub call_before_def: bool,
     pub conditional_in_body: bool,
+    pub message_in_body: bool,
     pub leg: &'static str,
 }
 
@@ -130,7 +131,12 @@ pub fn build(r: &RawMacros) -> Built {
             let reg = |salt: u8| find_kind(kinds, K_R, salt).map(Opnd::Arg).unwrap_or(Opnd::Reg(16 + salt % 16));
             let atom = |salt: u8| find_kind(kinds, K_A, salt).map(E::Arg).unwrap_or(E::Num(salt as i64));
             let byte = |salt: u8| find_kind(kinds, K_B, salt).map(E::Arg).unwrap_or(E::Num(salt as i64));
-            match t % 14 {
+            match t % 15 {
+                // a message from the body: it is issued where the call stands (order of assembly)
+                14 => {
+                    shape.message_in_body = true;
+                    body.push(Ln::st(St::Msg(if b & 1 == 0 { MsgKind::Message } else { MsgKind::Warning }, format!("body of macro {} says {}", mi, a))));
+                }
                 0 => body.push(Ln::st(St::Ins("mov".into(), vec![reg(a), Opnd::Reg(b % 32)]))),
                 1 => body.push(Ln::st(St::Ins("ldi".into(), vec![reg(a), Opnd::Ex(E::Num(b as i64))]))),
                 2 => {
@@ -316,10 +322,16 @@ pub fn build(r: &RawMacros) -> Built {
             call_positions.push((true, before.len(), mi));
             before.push(line);
             before.push(marker);
+            if ci % 2 == 0 {
+                before.push(Ln::st(St::Msg(MsgKind::Message, format!("after call {}", ci))));
+            }
         } else {
             call_positions.push((false, after.len(), mi));
             after.push(line);
             after.push(marker);
+            if ci % 2 == 0 {
+                after.push(Ln::st(St::Msg(MsgKind::Warning, format!("after call {}", ci))));
+            }
         }
     }
     let mut expect_fail = false;
@@ -442,6 +454,7 @@ pub fn test(r: &RawMacros, ev: &mut Ev, opts: &ModelOpts) -> Result<(), Violatio
         ("definition-and-call-names-differ-in-case", b.shape.name_case_differs),
         ("call-before-definition", b.shape.call_before_def),
         ("conditional-in-body", b.shape.conditional_in_body),
+        ("message-in-body", b.shape.message_in_body),
     ] {
         if on {
             ev.class(c);
